@@ -312,3 +312,49 @@ func ParseFieldsTok(tok string) ([]Field, bool) {
 	}
 	return fs, true
 }
+
+// LitDecode reads back a LitEncode block (literal without indexing, new name, no Huffman).
+func LitDecode(b []byte) ([]Field, bool) {
+	var fs []Field
+	str := func() (string, bool) {
+		if len(b) == 0 || b[0]&0x80 != 0 {
+			return "", false
+		}
+		n := int(b[0])
+		b = b[1:]
+		if n == 127 {
+			m := uint(0)
+			for {
+				if len(b) == 0 || m > 28 {
+					return "", false
+				}
+				c := b[0]
+				b = b[1:]
+				n += int(c&127) << m
+				m += 7
+				if c&128 == 0 {
+					break
+				}
+			}
+		}
+		if n > len(b) {
+			return "", false
+		}
+		s := string(b[:n])
+		b = b[n:]
+		return s, true
+	}
+	for len(b) > 0 {
+		if b[0] != 0 {
+			return nil, false
+		}
+		b = b[1:]
+		n, ok1 := str()
+		v, ok2 := str()
+		if !ok1 || !ok2 {
+			return nil, false
+		}
+		fs = append(fs, Field{n, v})
+	}
+	return fs, true
+}
